@@ -171,8 +171,18 @@ def lists(prog, ctx):
     outs = [o for o in sx.run() if o.kind == 'return']
     ok = False
     got = None
-    if len(outs) == 1 and isinstance(outs[0].value, Arr):
-        got = outs[0].value.read((k, k2))
+    # the empty list of lists may be answered on a path of its own (its transpose is empty)
+    nlen = sp.Symbol('len(lists)', integer=True, nonnegative=True)
+
+    def empty_case(o):
+        cs_ = list(o.cond.args) if isinstance(o.cond, sp.And) else [o.cond]
+        is_empty = (isinstance(o.value, Arr) and not o.value.defs and o.value.length in (0, sp.Integer(0))) or \
+            (isinstance(o.value, sp.Basic) and str(o.value) in ('new:std::vector()', 'InitList()', '0')) or \
+            (isinstance(o.value, Arr) and o.value.length in (0, sp.Integer(0)))
+        return any(c_ == sp.Eq(nlen, 0) for c_ in cs_) and is_empty
+    main_ = [o for o in outs if not empty_case(o)]
+    if len(main_) == 1 and isinstance(main_[0].value, Arr):
+        got = main_[0].value.read((k, k2))
         ok = is_zero(got - Function('lists', real=True)(k2, k))
     ctx.decide(R, 'Transpose_Lists', fn, ok, 'result[j][i] = lists[i][j]', 'Transpose_Lists element is %s' % got, form=str(got))
     # Lists_Equal: false iff sizes differ or some element differs
